@@ -916,7 +916,7 @@ func (p *parser) parseFuncContract() (*FuncContract, error) {
 		case "modifies":
 			curLoop = nil
 			for {
-				if p.isOp("*") {
+				if p.isOp("*") && !(p.toks[p.p+1].k == "id" && !clauseKeywords[p.toks[p.p+1].s] && !itemKeywords[p.toks[p.p+1].s]) {
 					p.adv()
 					fc.ModAll = true
 				} else {
